@@ -67,6 +67,18 @@ func (s *Scope) evalInterval(e ast.Expr, depth int, assumptions *[]string) ival 
 		switch CalleeName(s.Info, x) {
 		case "(time.Time).YearDay":
 			return ival{1, 366, true}
+		case "(time.Time).Hour":
+			return ival{0, 23, true}
+		case "(time.Time).Minute", "(time.Time).Second":
+			return ival{0, 59, true}
+		case "(time.Time).Nanosecond":
+			return ival{0, 999999999, true}
+		case "(time.Time).Day":
+			return ival{1, 31, true}
+		case "(time.Time).Month":
+			return ival{1, 12, true}
+		case "(time.Time).Weekday":
+			return ival{0, 6, true}
 		case "(time.Duration).Nanoseconds", "(time.Duration).Microseconds", "(time.Duration).Milliseconds":
 			if sel, ok := unparen(x.Fun).(*ast.SelectorExpr); ok {
 				v := s.evalInterval(sel.X, depth+1, assumptions)
